@@ -141,16 +141,16 @@ ADDENDA = {
 # second batch (rounds 4-6 of the seeded changes: builder histories, stale buffers, cross-crate routes, scale / subtle changes)
 ADDENDA2 = {
  "C01": "Rounds 4-6: unchecked hyper-parameter mocks that reach Fit only through the blanket ParamGuard impl (the typed check error must come back unchanged), empty candidate slices, feature counts 4-9, reversed feature axis.",
- "C02": "Rounds 4-6: weight vectors with exact zeros / a whole class at zero / all ones, label accessors (`labels()`, `label_set()`, `label_frequencies()`) checked on every returned dataset through method-call syntax.",
- "C03": "Rounds 4-6: extreme-magnitude query rows in every pool, single-member composing wrappers and 0-3 row batches with shape checks, poisoned / foreign-batch output buffers for every predict_inplace.",
+ "C02": "Rounds 4-7: scripted random generator with lock-step comparison against rand's own gen_range / shuffle and index coverage, weight vectors with exact zeros / a whole class at zero / all ones, label accessors (`labels()`, `label_set()`, `label_frequencies()`) checked on every returned dataset through method-call syntax.",
+ "C03": "Rounds 4-7: definitional sigmoid oracle in log space with decision-value ladders, near-tied / tiny / repeated-label members for MultiClassModel, extreme-magnitude query rows in every pool, single-member composing wrappers and 0-3 row batches with shape checks, poisoned / foreign-batch output buffers for every predict_inplace.",
  "C04": "Rounds 4-6: structural error oracle (documented wrapping variant per calling form, not `E::from`), whole-result comparison (records, targets, weights, names) of unchecked vs checked dataset forms.",
- "C05": "Rounds 4-6: target-container family (views, datasets, CountedTargets from with_labels with present / absent / subset labels, one_vs_all, map_targets, into_single_target) for confusion matrix, silhouette, roc / log_loss; scaled copies with purely relative tolerances.",
+ "C05": "Rounds 4-7: translated copies (offsets up to 1e9, non-dyadic steps) next to scaled ones, target-container family (views, datasets, CountedTargets from with_labels with present / absent / subset labels, one_vs_all, map_targets, into_single_target) for confusion matrix, silhouette, roc / log_loss; scaled copies with purely relative tolerances.",
  "C06": "Rounds 4-6: sub-unit scales on more than 16 records, feature counts 4-9 in generic position, reversed feature axis.",
  "C07": "Rounds 4-6: feature counts not a multiple of 4 (4,5,6,7,9,17), reversed feature axis for batch rows and query points, layouts for every metric in the dimension sweep.",
  "C08": "Rounds 4-6: multisets embedded in 4-9 features with the deciding coordinate cycling through every index, Lp(3), 0.1 / 0.125-scaled families with tolerances below 1 and more than 16 points per index, reversed feature axis.",
  "C09": "Rounds 4-6: builder histories (24 setter orders + decoys, three constructors), predict_inplace into stale buffers, reversed feature axis (views and owned), wide family d in {4..40} at scale 1 and 0.125 with every metric, fit / predict calling forms incl. one-row batches.",
  "C10": "Rounds 4-6: every calling form of predict (arrays, datasets, views, in-place, single- and two-member MultiTargetModel) against the arg-max of predict_proba on full / one-row / two-row batches, reversed feature axis.",
- "C11": "Rounds 4-6: builder / constructor family (120 setter orders, new / default / params / ridge / lasso), predict_inplace on stale buffers, correlated and suppressor designs, `iteration_cap_on_easy_problem` judged against the harness's own coordinate descent, target scales and the documented gap stopping rule.",
+ "C11": "Rounds 4-7: documented stopping rule as an oracle (gap <= tol*||y_c||^2), equivariance under target scaling, builder / constructor family (120 setter orders, new / default / params / ridge / lasso), predict_inplace on stale buffers, correlated and suppressor designs, `iteration_cap_on_easy_problem` judged against the harness's own coordinate descent, target scales and the documented gap stopping rule.",
  "C12": "Rounds 4-6: unset-parameter subsets against the documented defaults (default link per power), target layouts, label naming through map_targets, every predict calling form incl. one-row batches, feature scale 0.125 and 4-9 features, reversed feature axis.",
  "C13": "Rounds 4-6: builder histories over all SvmParams setters with decoys, stale buffers, feature counts 4-9 at sub-unit pitch, sparse Gaussian kernels, calling-form family for fit (target containers and layouts) and predict, class-ratio family with judged Platt failures.",
  "C14": "Rounds 4-6: six layouts of records x target views x weight layouts, predict / fit calling forms and core helpers (map_targets, into_single_target, with_labels), wide family with 4-9 features, weight vectors with exact zeros.",
@@ -158,8 +158,8 @@ ADDENDA2 = {
  "C16": "Rounds 4-6: constructor / setter histories, no-state-leak sequences (fit A, B, A; transform A, B, A), wide family with 4-9 features, dataset:core family (target / weight layouts, both constructors), owned arrays sliced in place at the front, all-ones / all-zeros weights compared with the array originally given.",
  "C17": "Rounds 4-6: (no further dimension needed: the round-5 and round-6 seeds were detected at first run).",
  "C18": "Rounds 4-6: call-history cases (builder forms, same params fitted A-B-A, same model used A-B-A, poisoned / reused predict_inplace buffers, calling forms of fit / predict / transform incl. weighted datasets and to_owned() of every layout), p in {1..9}, reversed feature axis.",
- "C19": "Rounds 4-6: generation histories over {round trip, repair, use} for types with a repair API, mutation histories for incremental models, memory layout as state (column-major data variant of every case, column-major Precomputed centroids / initial_params / hyperplanes, layout audit).",
- "C20": "Rounds 4-6: seed values 0 / 1 / MAX for every seeded estimator, PLS-SVD, L1 f32 k-means, sparse kernels with every index on a lattice, f32 SVM / logistic.",
+ "C19": "Rounds 4-7: instances with generic floats (not f32-representable, sums a few ulp off) and audits for them, generation histories over {round trip, repair, use} for types with a repair API, mutation histories for incremental models, memory layout as state (column-major data variant of every case, column-major Precomputed centroids / initial_params / hyperplanes, layout audit).",
+ "C20": "Rounds 4-7: seed values 0 / 1 / MAX for every seeded estimator, PLS-SVD, L1 f32 k-means, sparse kernels with every index on a lattice, f32 SVM / logistic, a 20000-row k-means entry (size-gated parallel paths), every public accessor of every fitted model in the fingerprints (accessor audit) plus key-sorted serde forms for learned quantities without accessors, unbalanced naive-Bayes classes, one-vs-all with saturated probability ties, bit-for-bit tied candidate splits, an in-place refit history entry (`history_dependence.*`).",
 }
 
 def main():
